@@ -171,6 +171,74 @@ fn sparse(cfg: &Cfg, worker: usize, counts: &[usize]) -> Report {
     rep
 }
 
+/// Receipts roots: scripts with a counted LOG loop (`n` iterations) executed by the VM;
+/// the `receipts_root` committed in the output transaction must be the RFC 6962 root over
+/// the canonical encodings of exactly the receipts the execution produced - also when the
+/// loop runs into the receipt limit and further receipts are refused.
+fn receipts_roots(cfg: &Cfg, w: usize) -> Report {
+    use crate::world::{
+        ScriptSpec,
+        World,
+        run_plain,
+    };
+    use fuel_asm::{
+        RegId,
+        op,
+    };
+    use fuel_types::canonical::Serialize;
+    let mut rep = Report::new();
+    let limit = 65_535u64;
+    let mut counts: Vec<u64> = vec![0, 1, 2, 3, 4, 5, 7, 8, 9, 100, 1023, 1024, 1025, limit - 5, limit - 4, limit - 3, limit - 2, limit - 1, limit, limit + 1, limit + 5];
+    let mut rng = Rng::derive(cfg.seed, 0x9c, w as u64);
+    for _ in 0..cfg.budget(4, 40) {
+        counts.push(rng.below(70_000));
+    }
+    for (k, n) in counts.iter().enumerate() {
+        if k % cfg.threads.max(1) != w {
+            continue;
+        }
+        let world = World::new(fuel_tx::ConsensusParameters::standard(), 0);
+        let logd = k % 3 == 2;
+        let mut code: Vec<fuel_asm::Instruction> = vec![op::movi(0x10, (*n as u32) & 0x3ffff), op::movi(0x11, 24)];
+        if *n > 0 {
+            code.push(if logd { op::logd(0x10, RegId::ZERO, RegId::ZERO, 0x11) } else { op::log(0x10, RegId::ZERO, RegId::ZERO, RegId::ZERO) });
+            code.push(op::subi(0x10, 0x10, 1));
+            code.push(op::jnzb(0x10, RegId::ZERO, 1));
+        }
+        code.push(op::ret(RegId::ONE));
+        let script: Vec<u8> = code.into_iter().collect();
+        let spec = ScriptSpec { script, data: vec![], gas_limit: 50_000_000, max_fee: 0, coins: vec![(0, 0, 1000)], ..Default::default() };
+        let ready = match spec.ready(&world, k as u64) {
+            Ok(r) => r,
+            Err(e) => {
+                rep.count("receipts_script_rejected");
+                rep.note(format!("receipts-root script rejected: {}", &e[..e.len().min(120)]));
+                continue;
+            }
+        };
+        let (out, _vm) = run_plain(&world, ready);
+        rep.eval();
+        let leaves: Vec<Vec<u8>> = out.receipts.iter().map(|x| x.to_bytes()).collect();
+        let want = r::mth(&leaves);
+        let got = *fuel_tx::field::ReceiptsRoot::receipts_root(&out.tx);
+        let at_limit = leaves.len() as u64 >= limit - 1;
+        rep.class(format!("receipts_root|{}|receipts={}", if logd { "LOGD" } else { "LOG" }, if at_limit { "at-limit" } else { bucket(leaves.len() as u64) }));
+        rep.count("receipts_roots_checked");
+        if at_limit {
+            rep.count("receipts_roots_checked_at_the_limit");
+        }
+        if got.as_slice() != &want[..] {
+            let info = json!({"kind": "receipts", "loop_count": n, "logd": logd, "receipts": leaves.len()});
+            rep.violation(
+                format!("C09|receipts_root|root!=MTH of the receipts produced|{}", if at_limit { "at the receipt limit" } else { "below the limit" }),
+                format!("script looping {n} times over {}: {} receipts, committed root {} != {}", if logd { "LOGD" } else { "LOG" }, leaves.len(), hx(*got), hx(want)),
+                || info.clone(),
+            );
+        }
+    }
+    rep
+}
+
 pub fn run(cfg: &Cfg) -> Report {
     let max_n = cfg.budget(1024, 4096) as usize;
     let mut counts = vec![];
@@ -187,11 +255,13 @@ pub fn run(cfg: &Cfg) -> Report {
     let mut rep = par(cfg.threads, |w| {
         let mut r = dense(cfg, w, if w < 6 { max_n } else { max_n / 4 });
         r.merge(sparse(cfg, w, &counts));
+        r.merge(receipts_roots(cfg, w));
         r
     });
     rep.rule = "dense: every prefix 0..=n_max of 16 leaf streams (6 leaf styles incl. empty, 1-byte, 32-byte, node-like 65-byte) through 4 root implementations + sampled ephemeral_merkle_root/root_from_iterator; sparse: 2^k-1,2^k,2^k+1 and random big counts. class = (implementation, popcount(n) bucket, n bucket)".into();
     rep.assume("reference: RFC 6962 MTH by the recursive definition (memoised on aligned perfect subtrees), sha2 crate trusted");
-    rep.note("receipts roots of executed scripts are checked against the same reference in C28");
+    rep.note("receipts: scripts with a counted LOG/LOGD loop (0..70000 iterations, dense around the 65535 receipt limit) executed by the VM: receipts_root of the output transaction == MTH over Receipt::to_bytes of the receipts produced (receipts roots of generated programs are judged in C28 with an independent receipt encoding)");
+    rep.gate("receipts_roots_checked_at_the_limit", rep.counter("receipts_roots_checked_at_the_limit"), 4);
     rep.gate("classes", rep.classes.len() as u64, 40);
     rep
 }
